@@ -145,7 +145,7 @@ PROPERTY_RULES: Dict[str, List[Scoped]] = {
         _r("ERROR-PATH"), _r("COST-OPTIONS"), _r("CLI-COST-SOURCE"), _r("COST-PASSTHROUGH"), _r("DISPATCH-KEYS"),
         _r("COST-TRUTH", S_CLI + S_MODEL), _r("FIELD-COPY-COMPLETE", S_CLI), _r("RESULT-SCOPE"),
         _r("LABEL-PASS", ("cli.", "compute.")), _r("LAYOUT-SIDES"), _r("LOSS-WALK"), _r("SORT-KEY-ALIGNED"), _r("RESULT-UNCONDITIONAL"),
-        _r("TREE-WRITE-ARGS"), _r("KEY-GUARD", S_CLI + S_MODEL), _r("COST-KEY-RESOLUTION"), _r("ANCHOR-SET"), _r("CLI-FLOW-TABLE"),
+        _r("TREE-WRITE-ARGS"), _r("KEY-GUARD", S_CLI + S_MODEL), _r("COST-KEY-RESOLUTION"), _r("ANCHOR-SET"), _r("CLI-FLOW-TABLE"), _r("DRAW-ANCHOR-SIDES"),
     ],
     "C13": [
         _r("KIND-EXHAUSTIVE"), _r("KIND-AGREE"), _r("ONE-EVENT-NODE"), _r("ONE-ARROW"), _r("LOSS-MARKERS"),
@@ -153,13 +153,13 @@ PROPERTY_RULES: Dict[str, List[Scoped]] = {
         _r("NO-PRUNED-TRAVERSAL", S_RENDER), _r("LOSS-WALK"), _r("SIGMA-DRAW"), _r("LAYOUT-SIDES"),
         _r("NO-TOPOLOGY-WRITE"),
         _r("PLACED-IN-SPECIES"),
-        _r("LEAF-MAP-DOMAIN"), _r("ANCHOR-SET"),
+        _r("LEAF-MAP-DOMAIN"), _r("ANCHOR-SET"), _r("DRAW-ANCHOR-SIDES"),
     ],
     "C14": [
         _r("SIGMA-INVARIANCE"), _r("SIGMA-CLOSURE"), _r("SOLVER-STATELESS", ("render.layout:", "utils.geometry:")),
         _r("LOSS-WALK"), _r("LAYOUT-SIDES"),
         _r("NO-TOPOLOGY-WRITE"),
-        _r("FINITE-ARITH"), _r("ANCHOR-SET"), _r("SUBTREE-BOX"),
+        _r("FINITE-ARITH"), _r("ANCHOR-SET"), _r("SUBTREE-BOX"), _r("DRAW-ANCHOR-SIDES"),
     ],
     "C15": [
         _r("TEMPLATE-BRACES"), _r("TEMPLATE-TERMINATED"), _r("PICTURE-ENV"), _r("COLOR-INTERN"),
@@ -596,9 +596,11 @@ _DECIDED_ROUND4 = {
     "C13": [
         "abstract execution of _add_losses over the tree model: one loss node per skipped species, on the side the lineage comes from, linked to the node below, registered as anchor (LOSS-WALK)",
         "every handler registers its node as an anchor and removes only children it brought into the same species (ANCHOR-SET); the drawing code receives the total mapping, never the leaf mapping (LEAF-MAP-DOMAIN)",
+        "anchor look-ups of the drawing code pair child layout k with the gene of side k; the transfer arrow ends at the anchor of the transferred child in the species it is mapped to (DRAW-ANCHOR-SIDES)",
     ],
     "C14": [
         "loss chains over the tree model (LOSS-WALK) and anchor bookkeeping (ANCHOR-SET): necessary for 'every anchor referenced by a drawn branch exists'",
+        "the drawing code indexes the layout of child species k only with the gene stored on side k of the branch, never with a gene that is None on that path, looks the foreign end of a transfer up in the species that gene is mapped to, and reads its own anchors only after a membership test (DRAW-ANCHOR-SIDES)",
         "box lemma, proved symbolically for all non-negative child sizes, trunk sizes and spacing parameters: with the offsets and sizes paired as the positioning loop pairs them, the boxes of the two sibling species are disjoint along the across axis, lie inside the parent's box and start below the parent's trunk (SUBTREE-BOX; VERTICAL arm, the other follows by SIGMA-INVARIANCE)",
     ],
     "C15": [
